@@ -7,6 +7,7 @@ import Driver.ClusterD
 import Driver.TmplD
 import Driver.ConfigD
 import Driver.ZkLoopD
+import Driver.ZkReaderD
 
 /-!
   Line-protocol driver.  One operation per input line, one canonical output line per operation.
@@ -18,6 +19,7 @@ structure State where
   storage : StorageD.CSt := {}
   notifier : NotifierD.St := {}
   cluster : ClusterD.St := none
+  zkreader : Burrow.ZkReader.St := {}
 
 def step (st : State) (line : String) : State × String :=
   let line := line.trimAscii.toString
@@ -31,6 +33,9 @@ def step (st : State) (line : String) : State × String :=
   | "K" :: args =>
     let (s', out) := ClusterD.step st.cluster args
     ({ st with cluster := s' }, out)
+  | "R" :: args =>
+    let (s', out) := ZkReaderD.step st.zkreader args
+    ({ st with zkreader := s' }, out)
   | "N" :: args =>
     let (s', out) := NotifierD.step st.notifier args
     ({ st with notifier := s' }, out)
